@@ -34,7 +34,7 @@ where
         let nth_nones = (len..len + 9).filter(|&n| s.iter().nth(n).is_none()).count();
         let step3: Vec<i64> = s.iter().step_by(3).map(|v| num_traits::cast::<B, i64>(v).unwrap()).collect();
         json!({"len": len, "gets": gets, "nones": nones, "beyond_none": beyond_none, "iter": it, "dec": dec,
-               "nth_nones": nth_nones, "step3": step3})
+               "nth_nones": nth_nones, "step3": step3, "is_empty": s.is_empty() as u8})
     });
 }
 
@@ -243,7 +243,7 @@ where
             let nth_nones = (len..len + 9).filter(|&n| s.iter().nth(n).is_none()).count();
             let step3: Vec<String> = s.iter().step_by(3).map(|v| v.to_string()).collect();
             json!({"len": len, "gets": gets, "nones": nones, "beyond_none": beyond_none, "iter": it, "dec": dec,
-                   "nth_nones": nth_nones, "step3": step3})
+                   "nth_nones": nth_nones, "step3": step3, "is_empty": s.is_empty() as u8})
         });
     };
     wobs(log, &s);
